@@ -336,7 +336,7 @@ func c13DenseGraph[L dfa.Semilattice[F], F any](fam *c13Fam[F], gi *c13GraphInfo
 func c13FamGK1() *c13Fam[uint8] {
 	return &c13Fam[uint8]{
 		name: "genkill1", height: 1, points: []uint8{0, 1},
-		pstr:   func(f uint8) string { return fmt.Sprintf("{%01b}", f) },
+		pstr:   func(f uint8) string { return fmt.Sprintf("0b%01b", f) },
 		tfs:    []func(uint8) uint8{func(f uint8) uint8 { return f }, func(f uint8) uint8 { return f | 1 }, func(f uint8) uint8 { return f &^ 1 }},
 		tnames: []string{"id", "set", "clear"},
 	}
@@ -344,7 +344,7 @@ func c13FamGK1() *c13Fam[uint8] {
 
 func c13FamGK2() *c13Fam[uint8] {
 	fam := &c13Fam[uint8]{name: "genkill2", height: 2, points: []uint8{0, 1, 2, 3},
-		pstr: func(f uint8) string { return fmt.Sprintf("{%02b}", f) }}
+		pstr: func(f uint8) string { return fmt.Sprintf("0b%02b", f) }}
 	ops := []string{"id", "set", "clear"}
 	bit := func(op int, f, m uint8) uint8 {
 		switch op {
@@ -547,66 +547,64 @@ func c13DenseJobs[L dfa.Semilattice[F], F any](fam *c13Fam[F], bounds []c13Bound
 	return jobs
 }
 
-func TestVerifC13Dense(t *testing.T) {
-	res := c13Result()
-	defer res.Write()
+var c13DenseBound string
+
+// c13DenseReplay re-runs exactly one dense case.
+func c13DenseReplay(raw json.RawMessage, res *vx.Result) {
 	gk1, gk2, cp, nl, nm := c13FamGK1(), c13FamGK2(), c13FamCP(), c13FamNil(), c13FamNilMap()
-	if _, raw, ok := vx.Replay(); ok {
-		var c c13DenseCase
-		json.Unmarshal(raw, &c)
-		if c.Kind != "dense" {
-			return
-		}
-		gi := c13Info(c.Graph)
-		if len(c.Labels) != len(gi.edges) || len(c.Entry) != len(gi.zeroPred) || c.Variant < 0 || c.Variant >= c13NumVariants {
-			res.Note("replay file does not describe a dense case of this harness")
-			return
-		}
-		var msg string
-		var text string
-		switch c.Fam {
-		case gk1.name:
-			msg, _, _, _ = c13DenseRun[c13Bits](gk1, gi, c.Labels, c.Entry, c.Variant, &c13Scratch[uint8]{})
-			text = c13Describe(gk1, gi, c)
-		case gk2.name:
-			msg, _, _, _ = c13DenseRun[c13Bits](gk2, gi, c.Labels, c.Entry, c.Variant, &c13Scratch[uint8]{})
-			text = c13Describe(gk2, gi, c)
-		case cp.name:
-			msg, _, _, _ = c13DenseRun[c13Flat](cp, gi, c.Labels, c.Entry, c.Variant, &c13Scratch[uint8]{})
-			text = c13Describe(cp, gi, c)
-		case nl.name:
-			msg, _, _, _ = c13DenseRun[lattice](nl, gi, c.Labels, c.Entry, c.Variant, &c13Scratch[ValueNilness]{})
-			text = c13Describe(nl, gi, c)
-		case nm.name:
-			msg, _, _, _ = c13DenseRun[c13NilMapL](nm, gi, c.Labels, c.Entry, c.Variant, &c13Scratch[[]ValueNilness]{})
-			text = c13Describe(nm, gi, c)
-		}
-		res.Eval(1)
-		c13AddStates(1, 1, 1)
-		if msg != "" {
-			res.Violate(c13Key(c.key()), msg+" — "+text, c)
-		}
+	var c c13DenseCase
+	json.Unmarshal(raw, &c)
+	gi := c13Info(c.Graph)
+	if len(c.Labels) != len(gi.edges) || len(c.Entry) != len(gi.zeroPred) || c.Variant < 0 || c.Variant >= c13NumVariants {
+		res.Note("replay file does not describe a dense case of this harness")
 		return
 	}
+	var msg string
+	var text string
+	switch c.Fam {
+	case gk1.name:
+		msg, _, _, _ = c13DenseRun[c13Bits](gk1, gi, c.Labels, c.Entry, c.Variant, &c13Scratch[uint8]{})
+		text = c13Describe(gk1, gi, c)
+	case gk2.name:
+		msg, _, _, _ = c13DenseRun[c13Bits](gk2, gi, c.Labels, c.Entry, c.Variant, &c13Scratch[uint8]{})
+		text = c13Describe(gk2, gi, c)
+	case cp.name:
+		msg, _, _, _ = c13DenseRun[c13Flat](cp, gi, c.Labels, c.Entry, c.Variant, &c13Scratch[uint8]{})
+		text = c13Describe(cp, gi, c)
+	case nl.name:
+		msg, _, _, _ = c13DenseRun[lattice](nl, gi, c.Labels, c.Entry, c.Variant, &c13Scratch[ValueNilness]{})
+		text = c13Describe(nl, gi, c)
+	case nm.name:
+		msg, _, _, _ = c13DenseRun[c13NilMapL](nm, gi, c.Labels, c.Entry, c.Variant, &c13Scratch[[]ValueNilness]{})
+		text = c13Describe(nm, gi, c)
+	}
+	res.Eval(1)
+	c13AddStates(1, 1, 1)
+	if msg != "" {
+		res.Violate(c13Key(c.key()), msg+" — "+text, c)
+	}
+}
 
+func c13DenseMain(t *testing.T, res *vx.Result) {
+	gk1, gk2, cp, nl, nm := c13FamGK1(), c13FamGK2(), c13FamCP(), c13FamNil(), c13FamNilMap()
 	all := []int{c13VarPlain, c13VarCompact, c13VarString, c13VarDouble}
 	plain := []int{c13VarPlain}
 	type B = c13Bound
 	var jobs []c13Job
 	if vx.Thorough() {
-		jobs = append(jobs, c13DenseJobs[c13Bits](gk1, []B{{1, 1, all}, {2, 4, all}, {3, 9, all}, {4, 8, plain}, {5, 5, plain}}, res)...)
-		jobs = append(jobs, c13DenseJobs[c13Flat](cp, []B{{1, 1, all}, {2, 4, all}, {3, 9, all}, {4, 7, plain}}, res)...)
-		jobs = append(jobs, c13DenseJobs[c13Bits](gk2, []B{{1, 1, all}, {2, 4, all}, {3, 6, plain}, {4, 4, plain}}, res)...)
-		jobs = append(jobs, c13DenseJobs[lattice](nl, []B{{1, 1, all}, {2, 4, all}, {3, 6, plain}, {4, 4, plain}}, res)...)
-		jobs = append(jobs, c13DenseJobs[c13NilMapL](nm, []B{{1, 1, all}, {2, 4, all}, {3, 6, plain}, {4, 4, plain}}, res)...)
-		res.Bound = "dense: genkill1 <=3 nodes all graphs x4 shapes, 4 nodes <=8 edges, 5 nodes <=5 edges; constprop <=3 nodes all x4 shapes, 4 nodes <=7 edges; genkill2, nilness, nilness-densemap <=2 nodes all x4 shapes, 3 nodes <=6 edges, 4 nodes <=4 edges"
+		jobs = append(jobs, c13DenseJobs[c13Bits](gk1, []B{{1, 1, all}, {2, 4, all}, {3, 9, all}, {4, 8, plain}, {5, 4, plain}}, res)...)
+		jobs = append(jobs, c13DenseJobs[c13Flat](cp, []B{{1, 1, all}, {2, 4, all}, {3, 9, all}, {4, 6, plain}}, res)...)
+		jobs = append(jobs, c13DenseJobs[c13Bits](gk2, []B{{1, 1, all}, {2, 4, all}, {3, 6, plain}, {4, 3, plain}}, res)...)
+		jobs = append(jobs, c13DenseJobs[lattice](nl, []B{{1, 1, all}, {2, 4, all}, {3, 6, plain}, {4, 1, plain}}, res)...)
+		jobs = append(jobs, c13DenseJobs[c13NilMapL](nm, []B{{1, 1, all}, {2, 4, all}, {3, 6, plain}, {4, 1, plain}}, res)...)
+		c13DenseBound = "dense: genkill1 <=3 nodes all graphs x4 shapes, 4 nodes <=8 edges, 5 nodes <=4 edges; constprop <=3 nodes all graphs x4 shapes, 4 nodes <=6 edges; genkill2 <=2 nodes all x4 shapes, 3 nodes <=6 edges, 4 nodes <=3 edges; nilness and nilness-densemap <=2 nodes all x4 shapes, 3 nodes <=6 edges, 4 nodes <=1 edge; every entry fact (and 'absent') at every zero-predecessor node"
 	} else {
 		jobs = append(jobs, c13DenseJobs[c13Bits](gk1, []B{{1, 1, all}, {2, 4, all}, {3, 9, all}, {4, 6, plain}}, res)...)
-		jobs = append(jobs, c13DenseJobs[c13Flat](cp, []B{{1, 1, all}, {2, 4, all}, {3, 9, plain}, {4, 6, plain}}, res)...)
-		jobs = append(jobs, c13DenseJobs[c13Bits](gk2, []B{{1, 1, all}, {2, 4, all}, {3, 5, plain}, {4, 3, plain}}, res)...)
-		jobs = append(jobs, c13DenseJobs[lattice](nl, []B{{1, 1, all}, {2, 4, plain}, {3, 4, plain}, {4, 3, plain}}, res)...)
-		jobs = append(jobs, c13DenseJobs[c13NilMapL](nm, []B{{1, 1, all}, {2, 4, plain}, {3, 4, plain}, {4, 3, plain}}, res)...)
-		res.Bound = "dense: genkill1 <=3 nodes all graphs x4 shapes, 4 nodes <=6 edges; constprop <=2 nodes x4 shapes, 3 nodes all, 4 nodes <=6 edges; genkill2 3 nodes <=5 edges, 4 nodes <=3 edges; nilness, nilness-densemap <=2 nodes all, 3 nodes <=4 edges, 4 nodes <=3 edges"
+		jobs = append(jobs, c13DenseJobs[c13Flat](cp, []B{{1, 1, all}, {2, 4, all}, {3, 9, plain}, {4, 4, plain}}, res)...)
+		jobs = append(jobs, c13DenseJobs[c13Bits](gk2, []B{{1, 1, all}, {2, 4, all}, {3, 4, plain}, {4, 2, plain}}, res)...)
+		jobs = append(jobs, c13DenseJobs[lattice](nl, []B{{1, 1, all}, {2, 4, plain}, {3, 4, plain}}, res)...)
+		jobs = append(jobs, c13DenseJobs[c13NilMapL](nm, []B{{1, 1, all}, {2, 4, plain}, {3, 4, plain}}, res)...)
+		c13DenseBound = "dense: genkill1 <=3 nodes all graphs x4 shapes, 4 nodes <=6 edges; constprop <=2 nodes x4 shapes, 3 nodes all graphs, 4 nodes <=4 edges; genkill2 <=2 nodes all x4 shapes, 3 nodes <=4 edges, 4 nodes <=2 edges; nilness and nilness-densemap <=2 nodes all, 3 nodes <=4 edges; every entry fact (and 'absent') at every zero-predecessor node"
 	}
 	if f := os.Getenv("C13_FAMS"); f != "" { // development aid: restrict to some families
 		var keep []c13Job
@@ -633,7 +631,7 @@ func TestVerifC13Dense(t *testing.T) {
 		totalW += j.weight
 	}
 	t.Logf("dense: %d (family,graph) jobs, %.0f cases", len(jobs), totalW)
-	res.SetBudget(vx.Pick(75*time.Second, 17*time.Minute))
+	res.SetBudget(vx.Pick(12*time.Minute, 45*time.Minute)) // safety net only; the bounds are sized for ~35 s / ~8 min on 16 free cores
 	if d, err := time.ParseDuration(os.Getenv("C13_BUDGET")); err == nil {
 		res.SetBudget(d)
 	}
